@@ -1,6 +1,7 @@
 package main
 
 import (
+	"regexp"
 	"go/constant"
 	"sort"
 	"strings"
@@ -264,4 +265,12 @@ func (fr *Frame) phiByName(name string, b *ssa.BasicBlock) (CV, bool) {
 		}
 	}
 	return CV{}, false
+}
+
+var reFromEdge = regexp.MustCompile(`:from\d+$`)
+var reCallOrd = regexp.MustCompile(`@([A-Za-z_][A-Za-z0-9_.$]*)#\d+`)
+
+// obligationStem: an obligation name without the numbering of back edges and call sites
+func obligationStem(n string) string {
+	return reCallOrd.ReplaceAllString(reFromEdge.ReplaceAllString(n, ""), "@$1")
 }
